@@ -1,4 +1,5 @@
 /* bytestr — byte-string reference model of an evbuffer (see bytestr.h). */
+#define _GNU_SOURCE
 #include "bytestr.h"
 #include <string.h>
 #include <limits.h>
@@ -19,9 +20,11 @@ int bs_equal(const struct bytestr *a, const struct bytestr *b)
 
 uint64_t bs_hash(const struct bytestr *m)
 {
-	uint64_t h = 0xcbf29ce484222325ULL;
-	for (size_t i = 0; i < m->len; i++) { h ^= m->d[i]; h *= 0x100000001b3ULL; }
-	h ^= m->len * 4 + m->fz_start * 2 + m->fz_end; h *= 0x100000001b3ULL;
+	uint64_t h = 0xcbf29ce484222325ULL, w;
+	size_t i = 0;
+	for (; i + 8 <= m->len; i += 8) { memcpy(&w, m->d + i, 8); h = (h ^ w) * 0x100000001b3ULL; h ^= h >> 29; }
+	for (; i < m->len; i++) { h ^= m->d[i]; h *= 0x100000001b3ULL; }
+	h ^= m->len * 4 + m->fz_start * 2 + m->fz_end; h *= 0x100000001b3ULL; h ^= h >> 32;
 	return h;
 }
 
@@ -155,15 +158,18 @@ int bs_ptr_set(const struct bytestr *m, ssize_t *pos, size_t n, int add)
 	return 0;
 }
 
+/* The searches use the C library's memmem/memchr (an implementation independent
+ * of libevent's chain walk) so that the battery stays cheap. */
 ssize_t bs_search_range(const struct bytestr *m, const void *what, size_t len, ssize_t start, ssize_t end)
 {
 	size_t s = start < 0 ? 0 : (size_t)start;
 	size_t e = end < 0 ? m->len : (size_t)end;
+	const unsigned char *p;
 	if (len == 0) return (ssize_t)s;          /* returns `start` (or 0) unchanged */
 	if (e > m->len) e = m->len;
-	for (size_t i = s; i + len <= e; i++)
-		if (!memcmp(m->d + i, what, len)) return (ssize_t)i;
-	return -1;
+	if (s > e || e - s < len) return -1;
+	p = memmem(m->d + s, e - s, what, len);
+	return p ? (ssize_t)(p - m->d) : -1;
 }
 
 static int is_crlf(unsigned char c) { return c == '\r' || c == '\n'; }
@@ -171,34 +177,36 @@ static int is_crlf(unsigned char c) { return c == '\r' || c == '\n'; }
 ssize_t bs_search_eol(const struct bytestr *m, ssize_t start, enum bs_eol style, size_t *eol_len)
 {
 	size_t s = start < 0 ? 0 : (size_t)start, i;
+	const unsigned char *p, *q;
 	*eol_len = 0;
+	if (s >= m->len) return -1;
 	switch (style) {
 	case BS_EOL_ANY:
-		for (i = s; i < m->len; i++)
-			if (is_crlf(m->d[i])) {
-				size_t j = i;
-				while (j < m->len && is_crlf(m->d[j])) j++;
-				*eol_len = j - i;
-				return (ssize_t)i;
-			}
-		return -1;
+		p = memchr(m->d + s, '\r', m->len - s);
+		q = memchr(m->d + s, '\n', p ? (size_t)(p - (m->d + s)) : m->len - s);
+		if (q) p = q;
+		if (!p) return -1;
+		i = (size_t)(p - m->d);
+		{ size_t j = i; while (j < m->len && is_crlf(m->d[j])) j++; *eol_len = j - i; }
+		return (ssize_t)i;
 	case BS_EOL_CRLF:
-		for (i = s; i < m->len; i++)
-			if (m->d[i] == '\n') {
-				if (i > s && m->d[i - 1] == '\r') { *eol_len = 2; return (ssize_t)(i - 1); }
-				*eol_len = 1;
-				return (ssize_t)i;
-			}
-		return -1;
+		p = memchr(m->d + s, '\n', m->len - s);
+		if (!p) return -1;
+		i = (size_t)(p - m->d);
+		if (i > s && m->d[i - 1] == '\r') { *eol_len = 2; return (ssize_t)(i - 1); }
+		*eol_len = 1;
+		return (ssize_t)i;
 	case BS_EOL_CRLF_STRICT:
-		for (i = s; i + 2 <= m->len; i++)
-			if (m->d[i] == '\r' && m->d[i + 1] == '\n') { *eol_len = 2; return (ssize_t)i; }
-		return -1;
+		p = memmem(m->d + s, m->len - s, "\r\n", 2);
+		if (!p) return -1;
+		*eol_len = 2;
+		return (ssize_t)(p - m->d);
 	case BS_EOL_LF:
 	case BS_EOL_NUL:
-		for (i = s; i < m->len; i++)
-			if (m->d[i] == (style == BS_EOL_LF ? '\n' : 0)) { *eol_len = 1; return (ssize_t)i; }
-		return -1;
+		p = memchr(m->d + s, style == BS_EOL_LF ? '\n' : 0, m->len - s);
+		if (!p) return -1;
+		*eol_len = 1;
+		return (ssize_t)(p - m->d);
 	}
 	return -1;
 }
